@@ -204,6 +204,8 @@ pub struct Obs {
     /// address -> denom -> amount, for every account the harness knows
     pub bal: BTreeMap<String, BTreeMap<String, u128>>,
     pub time: u64,
+    /// the fee collector the pool manager's configuration names
+    pub pm_fc: String,
 }
 
 impl Obs {
@@ -247,6 +249,7 @@ pub fn all_pools(w: &World) -> Result<Vec<PoolInfoResponse>, String> {
 
 pub fn observe(w: &World) -> Obs {
     let mut o = Obs::default();
+    o.pm_fc = w.query::<mantra_dex_std::pool_manager::Config, _>(&w.pm, &mantra_dex_std::pool_manager::QueryMsg::Config {}).map(|c| c.fee_collector_addr.to_string()).unwrap_or_default();
     match all_pools(w) {
         Ok(ps) => {
             for p in ps {
